@@ -144,7 +144,8 @@ def transcript(sc, d):
         mw = wn.Wordnet('m:1', lemmatizer=Morphy(wn.Wordnet('m:1')))
         mu0 = wn.Wordnet('m:1', lemmatizer=Morphy())
         out['lookups_m'] = [[q, [x.id for x in mw.words(q)], [x.id for x in mw.senses(q)], [x.id for x in mw.synsets(q)],
-                             [x.id for x in mu0.words(q)]] for q in ('axes', 'axe', 'boxes', 'Axes')]
+                             [x.id for x in mu0.words(q)]] for q in ('axes', 'axe', 'boxes', 'Axes', 'but', 'buts')]
+        out['morphy_m'] = [[q, [[str(k), sorted(v)] for k, v in Morphy(wn.Wordnet('m:1'))(q).items()]] for q in ('but', 'axes', 'nope')]
         mu = Morphy()
         out['morphy'] = [[q, {str(k): sorted(v) for k, v in mu(q).items()}] for q in sc['queries']]
         # validate
